@@ -13,6 +13,8 @@ for fn in prog.all_funcs():
     from pmverif.core import walk_own
     out[fn.key] = {
         "names": sorted({n.id for n in ast.walk(fn.node) if isinstance(n, ast.Name)} | {a.arg for a in ast.walk(fn.node) if isinstance(a, ast.arg)}),
+        "stmts": sorted(" ".join(ast.unparse(st).split()) for st in walk_own(fn.node) if isinstance(st, (ast.Assign, ast.AnnAssign, ast.AugAssign, ast.Expr, ast.Return, ast.Raise, ast.Break, ast.Continue, ast.Delete, ast.Assert)) and not (isinstance(st, ast.Expr) and isinstance(st.value, ast.Constant))),
+        "tests": sorted(" ".join(ast.unparse(st.test).split()) for st in walk_own(fn.node) if isinstance(st, (ast.If, ast.While))) + sorted("for " + " ".join(ast.unparse(st.target).split()) + " in " + " ".join(ast.unparse(st.iter).split()) for st in walk_own(fn.node) if isinstance(st, ast.For)),
         "shape": shape_of(fn.node),
         "locals": sorted((assigned_names([fn.node]) | set(fn.params())) - {fn.name}),
         "defs": {k: " ".join(ast.unparse(e).split()) for k, e in sorted(Resolver(fn.node).defs.items())},
